@@ -236,6 +236,13 @@ def main(argv):
         sel = [u for u in units if a.prop in u['props']]
         if a.tier == 'quick':
             sel = [u for u in sel if not u['thorough_only']]
+            # a unit that needs more than 5 minutes alone runs in the quick tier of the FIRST property it serves only (htp_connp_RES_HEADERS: C09,
+            # htp_parse_uri_unb: C13); the other properties it is tagged with get it in their thorough tier
+            try:
+                tm0 = json.load(open(os.path.join(VERIF, 'lib', 'timings.json')))
+            except OSError:
+                tm0 = {}
+            sel = [u for u in sel if tm0.get(u['name'], 0) <= 300 or u['props'][0] == a.prop]
             if a.prop == 'C01':
                 # the union property re-runs every unit of every other property; its quick tier leaves out the handful that need more than 150 s
                 # alone (lib/timings.json: the line-oriented state functions, the unbounded URI splitter, the deep reference units) - they run in the
